@@ -1,11 +1,11 @@
 SPECIFICATION Spec
 CONSTANTS
   FixDurs = {0,1,2}
-  ScanDurs = {0,1,2}
-  RestDurs = {0,1,2}
+  ScanDurs = {1}
+  RestDurs = {1}
   NodeDurs = {0,1,2}
   UseSw = TRUE
-  UseFs = FALSE
+  FsOps = {}
   AllowRestart = FALSE
   InitSw = {"GOOD"}
 INVARIANT InvNeverOverdue
